@@ -44,45 +44,39 @@ func ParseSchema(source string) (*Schema, error) {
 		}
 
 		if cur.IsNext("//") {
-			cur.SkipSpaces()
-			ctype, err := cur.ReadAt(' ')
+			// a comment occupies the rest of its line
+			line, err := cur.ReadAt('\n')
 			if err != nil {
-				return nil, fmt.Errorf("read comment type: %w", err)
+				break // comment on the last line of the source annotates nothing
+			}
+			cur.Skip(1)
+
+			line = strings.TrimSpace(line)
+			if !strings.HasPrefix(line, "@") {
+				continue // plain comment
 			}
 
-			cur.SkipSpaces()
+			// `@annotation text`; the text may be empty
+			ctype := strings.Fields(line)[0]
+			comment := strings.TrimSpace(strings.TrimPrefix(line, ctype))
 
 			switch ctype {
 			case "@type":
-				comment, err := cur.ReadAt('\n')
-				if err != nil {
-					return nil, fmt.Errorf("read comment: %w", err)
-				}
-				nextTypeComment = strings.TrimSpace(comment)
+				nextTypeComment = comment
 			case "@enum", "@constructor", "@method":
-				comment, err := cur.ReadAt('\n')
-				if err != nil {
-					return nil, fmt.Errorf("read comment: %w", err)
-				}
-				constructorComment = strings.TrimSpace(comment)
+				constructorComment = comment
 			case "@param":
-				pname, err := cur.ReadAt(' ')
-				if err != nil {
-					return nil, fmt.Errorf("read comment param name: %w", err)
+				fields := strings.Fields(comment)
+				if len(fields) == 0 {
+					return nil, errors.New("read comment param name: missing")
 				}
 
-				cur.SkipSpaces()
-				pcomment, err := cur.ReadAt('\n')
-				if err != nil {
-					return nil, fmt.Errorf("read comment param: %w", err)
-				}
-
-				paramComments[pname] = strings.TrimSpace(pcomment)
+				pname := fields[0]
+				paramComments[pname] = strings.TrimSpace(strings.TrimPrefix(comment, pname))
 			default:
 				return nil, fmt.Errorf("unknown comment type: %s", ctype)
 			}
 
-			cur.Skip(1)
 			continue
 		}
 
